@@ -113,6 +113,19 @@ CLAIMED['C16'] = (
     'preconditions such as event interval >= 1 are not established by option parsing (known findings).',
     'contract-based deductive verification: safety and termination obligations of the functions under contract')
 
+CLAIMED['C12'] = (
+    'DESIGN.md 4 C12',
+    'Reduced scope. Proof: ServeMpsMedia.calculate_media_segment_index delivers source segment Mof(T0) + (n - startNumber) '
+    'for number n (T0 = the Period source offset in the track timescale), raises ValueError (404) exactly beyond the end '
+    'of the media, origin time = minus the start of the segment nearest the offset; create_all_vod_periods lists all '
+    'period definitions contiguously from 0 with sum = total; create_all_live_periods lists consecutive repetitions '
+    'contiguously, covering [firstAvailableTime, elapsedTime], with (definition, loop) pairs - hence ids - pairwise distinct, '
+    'and terminates; lemma: served decode times start at minus the loop origin and are gapless.',
+    'Trusted: pyvc encoding; create_period / DashTiming / total_duration abstract (durations >= 1 us, total = their sum); '
+    'floats as exact rationals. Region: requested number >= startNumber (known finding otherwise). Payload identity, routing '
+    'and templates not covered.',
+    'contract-based deductive verification (AST->VC generator, z3 + cvc5), native replay by source extraction')
+
 NOT_APPLICABLE = {
     'C05': 'XML documents come out of Jinja templates rendered by an external engine; no function contract reaches them and the app cannot be instantiated offline (flask_login missing).',
     'C07': 'Identity of string transducers (quote_plus, regex date parsing, split) over a registry built with getattr; SMT string solvers leave these undecided; a proof over only int/bool options would not decide the property.',
